@@ -1112,7 +1112,8 @@ impl H<'_> {
                 ("update_tx", if has_pending { 5 } else { 1 }),
                 ("store_proved", if has_pending { 4 } else { 0 }),
                 ("take", if has_pending { 5 } else { 0 }),
-                ("cancel", 2),
+                // (with no live record cancel only repairs: it must leave the newest record's status as recorded)
+                ("cancel", if has_pending { 2 } else if self.last["acct"][a - 1]["latest"].as_i64().unwrap_or(0) > 0 { 5 } else { 1 }),
                 ("retire", if self.holds_reservation(a) { 7 } else if self.live_has_mined(a) { 5 } else { 0 }),
                 ("block", if mineable.is_empty() { 8 } else { 20 }),
                 ("scan", if fs < top { 18 } else { 0 }),
@@ -1458,6 +1459,139 @@ impl H<'_> {
     }
 }
 
+// ------------------------------------------------------------------------------------------------
+// a scripted history: every category the vacuity guards count, whatever the seed
+
+impl H<'_> {
+    /// a committed migration of the account over the given input notes, one transfer each (the first row a preparation
+    /// the others depend on when `with_prep`)
+    fn scripted_state(&mut self, notes: &[u32], with_prep: bool) -> MigrationState {
+        let top = self.chain.top();
+        let mut s = self.fresh_state(1);
+        let mut txs = vec![];
+        for (i, n) in notes.iter().enumerate() {
+            let prep = with_prep && i == 0;
+            let kind = if prep { MigrationTxKind::Preparation { layer: 0, index: 0 } } else { MigrationTxKind::Transfer { crossing: i.min(2) } };
+            let deps = if with_prep && i > 0 { vec![MigrationTransferId::new(0)] } else { vec![] };
+            let u = self.new_uid();
+            let anchor = self.non_root();
+            let pczt = self.pczt_for(anchor);
+            txs.push(MigrationTransaction::from_parts(
+                MigrationTransferId::new(i as u32), kind, pczt, deps, BlockHeight::from(top + 1), BlockHeight::from(top + 400),
+                if prep { None } else { Some(BlockHeight::from(self.w.base + 2)) }, self.txid(u), MigrationTxState::Signed, None, None,
+                vec![self.nf_bytes(*n as i64)], None,
+            ));
+        }
+        s = MigrationState::from_parts(MigrationStatus::Committed, s.denominations().clone(), s.preparation().clone(), txs, AnchorBucketInterval::ZIP_318, ReplanThreshold::DEFAULT);
+        s
+    }
+
+    /// prove (with a reservation) and broadcast row `k` of the account's live record
+    fn scripted_prove(&mut self, a: usize, k: usize, broadcast: bool) {
+        let mut s = self.pending(a).expect("a live record");
+        let id = s.transactions()[k].id();
+        let notes: Vec<u32> = s.transactions()[k].spend_nullifiers().iter().map(|b| self.note_of_nf(b) as u32).collect();
+        self.next_token += 1;
+        let t = self.next_token;
+        self.lock(&notes, t);
+        let a2 = self.non_root();
+        let bytes = self.pczt_for(a2);
+        s.set_transaction_proved(id, bytes, Some(MigrationLockOwner::from_bytes([t; 32])));
+        self.persist(a, &s, "proved");
+        if broadcast {
+            s.mark_broadcast(id);
+            self.persist(a, &s, "broadcast");
+        }
+    }
+
+    /// mine the broadcast transactions, scan, and promote at the height the store's own oracle reports
+    fn scripted_mine(&mut self, a: usize, rows: &[usize]) -> u32 {
+        let s = self.pending(a).expect("a live record");
+        let uids: Vec<i64> = rows.iter().map(|k| self.uid_of(&s.transactions()[*k].txid())).collect();
+        self.block(&uids, None, &[]);
+        self.tip();
+        let fs = self.wallet_fs();
+        self.scan(fs + 1, (self.chain.top() - fs) as usize);
+        self.oracle(a);
+        self.scripted_promote(a);
+        self.chain.top()
+    }
+    fn scripted_promote(&mut self, a: usize) {
+        let Some(mut s) = self.real_reload(a) else { return };
+        if s.status().is_terminal() { return; }
+        self.real_promote(a, &mut s);
+    }
+    fn scripted_rescan(&mut self, a: usize) {
+        self.tip();
+        let fs = self.wallet_fs();
+        if fs < self.chain.top() { self.scan(fs + 1, (self.chain.top() - fs) as usize); }
+        self.oracle(a);
+        self.scripted_promote(a);
+    }
+
+    fn scripted_history(&mut self) {
+        let zero = self.intern_root(MerkleHashOrchard::empty_root(Level::from(orchard::NOTE_COMMITMENT_TREE_DEPTH as u8)).to_bytes());
+        assert_eq!(zero, 0);
+        self.emit(json!({"a": "reset"}));
+        for i in 0..5u64 {
+            self.block(&[], None, &[(1, 150_000 + i * 1_000), (2, 160_000 + i * 1_000), (1, 170_000 + i * 1_000)]);
+        }
+        self.tip();
+        self.scan(self.w.base + 1, 5);
+        let n1 = self.free_notes(1);
+        let n2 = self.free_notes(2);
+        // account 1: a preparation and a transfer depending on it; account 2: a single transfer
+        let s1 = self.scripted_state(&n1[..2], true);
+        self.persist(1, &s1, "fresh");
+        let s2 = self.scripted_state(&n2[..1], false);
+        self.persist(2, &s2, "fresh");
+        self.scripted_prove(1, 0, true);
+        self.scripted_prove(1, 1, false);      // proved, reserved, never broadcast
+        self.scripted_prove(2, 0, true);
+        self.oracle(1);
+        let h = self.scripted_mine(1, &[0]);
+        // a rewind exactly AT the mined height spares the row, one block lower un-mines it
+        self.rewind("cs", h, false);
+        self.oracle(1);
+        self.rewind("height", h - 1, false);
+        self.oracle(1);
+        self.scripted_rescan(1);
+        // account 2 completes; a rewind below revokes the completion, the rescan restores it
+        let h2 = self.scripted_mine(2, &[0]);
+        self.rewind("cs", h2, false);
+        self.rewind("cs", h2 - 1, false);
+        self.oracle(2);
+        self.scripted_rescan(2);
+        self.scripted_rescan(1);
+        // account 1's migration is cancelled: the reservation of its never-broadcast row goes, the record stays as
+        // history with its mined row -- which a rewind below must not touch
+        self.cancel(1);
+        self.rewind("cs", h - 1, false);
+        self.oracle(1);
+        self.cancel(1);                          // nothing live: the repair half only
+        self.scripted_rescan(2);
+        // a new migration for each account; account 2's Complete record cannot be revived next to its successor:
+        // the rewind below its mined row is refused as a whole
+        let n1 = self.free_notes(1).into_iter().filter(|n| !self.reserved.contains(n)).collect::<Vec<_>>();
+        let s1 = self.scripted_state(&n1[..1], false);
+        self.persist(1, &s1, "fresh");
+        let n2 = self.free_notes(2).into_iter().filter(|n| !self.reserved.contains(n)).collect::<Vec<_>>();
+        let s2 = self.scripted_state(&n2[..1], false);
+        self.persist(2, &s2, "fresh");
+        self.rewind("cs", h2 - 1, false);
+        self.oracle(2);
+        // the successor is superseded (a policy decision persisted through the ordinary path); now the rewind goes through
+        let mut s = self.pending(2).expect("a live record");
+        s.mark_superseded();
+        self.persist(2, &s, "superseded");
+        self.rewind("cs", h2 - 1, true);
+        self.oracle(2);
+        self.update_tx(1);
+        self.store_proved(1);
+        self.take(1);
+    }
+}
+
 fn main() {
     quiet_panics();
     let args: Vec<String> = std::env::args().collect();
@@ -1469,6 +1603,16 @@ fn main() {
     let seed = seed_from_env();
     let mut out = NdjsonWriter::create(out_path);
     let mut stats = Stats::default();
+    if histories > 0 {
+        let mut rng = ChaChaRng::seed_from_u64(seed.wrapping_mul(5_000_011));
+        let (w, keys) = W::new(true);
+        let chain = Chain::new(w.base, keys, &mut rng, true);
+        let mut h = H {
+            w, chain, rng, out: &mut out, uid_bytes: vec![], fab: BTreeMap::new(), anchors: vec![], pczts: HashMap::new(), rids: HashMap::new(),
+            next_token: 0, reserved: BTreeSet::new(), stats: &mut stats, aborted: false, max_from: 0, last: Value::Null, nf_alias: HashMap::new(), tokens: vec![],
+        };
+        h.scripted_history();
+    }
     for hno in 0..histories {
         let mut rng = ChaChaRng::seed_from_u64(seed.wrapping_mul(1_000_003).wrapping_add(hno));
         let (w, keys) = W::new(true);
